@@ -67,7 +67,9 @@ class FieldIdGenerator:
     @classmethod
     def unbind_schema(cls, schema):
         for field in schema.fields:
-            delattr(field, "id")
+            # the same field object can occur twice (e.g. after a self join)
+            if hasattr(field, "id"):
+                delattr(field, "id")
             if isinstance(field, StructType):
                 cls.unbind_schema(field)
         return schema
